@@ -4,6 +4,8 @@ import (
 	"encoding/json"
 	"fmt"
 	"math/rand"
+	"os"
+	"path/filepath"
 	"sync"
 	"time"
 
@@ -48,7 +50,21 @@ func genCronSys(r *rand.Rand, n int, tier string) []Case {
 			}
 			ops = append(ops, o)
 		}
-		cases = append(cases, Case{"locs": locs, "ids": []interface{}{"r0", "r1"}, "ops": ops, "linear": r.Intn(2) == 0})
+		// 1 case in 3: the process "restarts" after the set-up phase: a second System (and a fresh,
+		// non-persistent cron) over the same Bolt file; its locations are loaded by a first request
+		// each and must register their stored scheduled rules again
+		restart := r.Intn(3) == 0
+		if restart && r.Intn(2) == 0 {
+			// two rules of ONE location due at the same instant: after the restart both jobs were
+			// scheduled by the same load, and they fire concurrently
+			l := locs[r.Intn(k)]
+			d := []interface{}{200.0, 400.0}[r.Intn(2)]
+			for _, id := range ids {
+				ops = append(ops, map[string]interface{}{"loc": l, "id": id, "op": "addsched", "delay_ms": d})
+			}
+		}
+		cases = append(cases, Case{"locs": locs, "ids": []interface{}{"r0", "r1"}, "ops": ops, "linear": r.Intn(2) == 0,
+			"restart": restart})
 	}
 	return cases
 }
@@ -61,6 +77,12 @@ func execCronSys(cases []Case) []Case {
 		sem <- true
 		go func(c Case) {
 			defer func() { <-sem; wg.Done() }()
+			if os.Getenv("RH_FORCE_CHILD") == "1" && os.Getenv("RH_CHILD") != "1" {
+				// (the harness process died on this domain before: one child process per case, so that a
+				// fatal runtime error of the code under test is an observation of one case)
+				runInChild("cron-sys", c, func(c Case, kind string) { c["crashed"] = kind })
+				return
+			}
 			execCronSysCase(c)
 		}(c)
 	}
@@ -73,6 +95,16 @@ func execCronSysCase(c Case) {
 	ctx.Verbosity = core.NOTHING
 	conf := sys.ExampleConfig()
 	conf.UnindexedState = boolean(c["linear"])
+	if boolean(c["restart"]) {
+		dir, err := os.MkdirTemp("", "rh-cronsys-")
+		if err != nil {
+			c["setup_error"] = err.Error()
+			return
+		}
+		defer os.RemoveAll(dir)
+		conf.Storage = "bolt"
+		conf.StorageConfig = filepath.Join(dir, "sys.db")
+	}
 	cont := sys.ExampleSystemControl()
 	cont.LocationTTL = sys.Forever
 	cont.DefaultLocControl = &core.Control{MaxFacts: 1000, Verbosity: core.NOTHING}
@@ -112,6 +144,27 @@ func execCronSysCase(c Case) {
 		o["at_ms"] = time.Since(start).Milliseconds()
 	}
 	c["phase1_ms"] = time.Since(start).Milliseconds()
+	if boolean(c["restart"]) {
+		// stop the first System and its cron (nothing has fired yet if phase 1 was quick), start another
+		// pair over the same file and touch every location once
+		cr.Kill(ctx)
+		s.Close(ctx)
+		cr2, _ := cron.NewCron(cron.NewCronBroadcaster(), time.Second, "rh2", 100000)
+		go cr2.Start(ctx)
+		defer cr2.Kill(ctx)
+		time.Sleep(5 * time.Millisecond)
+		s2, err := sys.NewSystem(ctx, *conf, *cont, &cron.InternalCron{Cron: cr2})
+		if err != nil {
+			c["setup_error"] = err.Error()
+			return
+		}
+		s = s2
+		for _, li := range list(c["locs"]) {
+			s.GetSize(newctx(), str(li))
+		}
+		c["restart_ms"] = time.Since(start).Milliseconds()
+		start = time.Now() // relative schedules count from the load
+	}
 	time.Sleep(1100*time.Millisecond - time.Since(start))
 	// what must have run: the pairs whose last successful operation scheduled a rule
 	due := map[string]bool{}
